@@ -233,8 +233,8 @@ wait:
 		if in.Rush && i == in.Hups-1 {
 			break // the terminating event follows at once
 		}
-		// wait until the process has handled it (signals sent faster than they are handled are merged or, the
-		// listener's channel holding one signal, dropped: that is the class "rush")
+		// wait until the process has handled it (signals sent faster than they are handled pile up in the
+		// listener's channel: that is the class "rush")
 		select {
 		case <-hupSeen:
 		case <-time.After(2 * time.Second):
@@ -379,8 +379,7 @@ func init() {
 			if err != nil {
 				return nil, err
 			}
-			// measure again, report the second — except in the class "rush", where a lost signal is the recorded finding
-			if (!out.Ignored || out.Exit != "in-time" || !out.Drained) && !in.Rush {
+			if !out.Ignored || out.Exit != "in-time" || !out.Drained { // measure again, report the second
 				first := out
 				if out, err = runExit(&in); err != nil {
 					return nil, err
